@@ -29,9 +29,9 @@ func init() {
 				Blocks:   32,
 				Procs:    16,
 				Rule: "case = (key type and comparator: int natural, int reversed via NewFunc, string natural, string case-folding via NewFunc; universe size; history of Set/Delete/Clear through the map and through a copy of it). " +
-					"After EVERY mutation: Len, Get/GetOK (all keys of small universes, sampled otherwise), Keys, String (exact comparators), First->Next sweep to the end, Last->Prev sweep to the start, Seek(k) for every k in [min-2,max+2] (sampled for large universes) followed by Next-steps and Prev-steps, re-Seek of an already positioned iterator to each kind of target, Key/Value of invalid iterators; periodically the delete-while-iterating idiom with re-Seek after each Delete; histories drain below 1/8 of their peak to reach the delete-side rebuild. Sparse-observation histories: maps of 100..1000 keys, operations chosen with locality (neighbouring keys), only the results of Set/Delete/GetOK themselves checked and nothing read in between (state carried from call to call is not disturbed by the monitor), full comparison every 400 operations. Zero Map: every documented read-only method. String-valued maps whose keys and values are awkward strings (blanks at either end, the separators String writes, format verbs, empty), String/Keys/iterators/GetOK compared after every operation. " +
+					"After EVERY mutation: Len, Get/GetOK (all keys of small universes, sampled otherwise), Keys, String (exact comparators), First->Next sweep to the end, Last->Prev sweep to the start, Seek(k) for every k in [min-2,max+2] (sampled for large universes) followed by Next-steps and Prev-steps, re-Seek of an already positioned iterator to each kind of target, Key/Value of invalid iterators; periodically the delete-while-iterating idiom with re-Seek after each Delete; histories drain below 1/8 of their peak to reach the delete-side rebuild. Sparse-observation histories: maps of 100..1000 keys, operations chosen with locality (neighbouring keys), only the results of Set/Delete/GetOK themselves checked and nothing read in between (state carried from call to call is not disturbed by the monitor), full comparison every 400 operations. Very large maps: 262 145..400 000 keys (3.6 M thorough, where a one-sided path at the fixed balance factor passes 32 levels) inserted in descending, ascending and shuffled order, read back completely, half deleted, read again. Zero Map: every documented read-only method. String-valued maps whose keys and values are awkward strings (blanks at either end, the separators String writes, format verbs, empty), String/Keys/iterators/GetOK compared after every operation. " +
 					"distinct = hash(comparator, universe, ops); non-trivial = the history performed seeks to all four target kinds (present, absent inside, below minimum, above maximum) and at least one Delete of a present key",
-				Required:     []string{"steps", "seek_present", "seek_absent_inside", "seek_below_min", "seek_above_max", "reseek_past_end", "iter_edit_idiom_runs", "deep_drains", "zero_map_checks", "copy_shares_checks", "prev_from_seek", "kept_iterator_reseeks", "float_key_maps", "sparse_observation_histories", "string_value_steps"},
+				Required:     []string{"steps", "seek_present", "seek_absent_inside", "seek_below_min", "seek_above_max", "reseek_past_end", "iter_edit_idiom_runs", "deep_drains", "zero_map_checks", "copy_shares_checks", "prev_from_seek", "kept_iterator_reseeks", "float_key_maps", "sparse_observation_histories", "string_value_steps", "very_large_maps"},
 				Assumptions:  []string{"reference model: sorted slice of pairs; keys are compared with the map's own comparator (stored key spelling under a case-folding comparator is not constrained)"},
 				CoverPkgs:    []string{"github.com/creachadair/mds/omap", "github.com/creachadair/mds/stree"},
 				CoverAnchors: []string{"omap/omap.go", "stree/stree.go:InorderAfter", "stree/node.go:inorderAfter", "stree/stree.go:Cursor", "stree/stree.go:Replace", "stree/stree.go:Remove", "stree/cursor.go:Next", "stree/cursor.go:Prev", "stree/cursor.go:findNext", "stree/cursor.go:findPrev"},
@@ -640,7 +640,111 @@ func c04zero(c *fw.Ctx) {
 	}
 }
 
+// c04veryLarge: a map of n keys inserted in descending, ascending or shuffled
+// order (deep one-sided paths at omap's fixed balance factor), read back with
+// Keys, Len, First/Next and Last/Prev sweeps, Seek at sampled keys, then half
+// deleted and read again.
+func c04veryLarge(c *fw.Ctx, n, order int) {
+	m := omap.New[int, int]()
+	data := map[string]any{"map": "omap.New[int,int]", "keys": n, "insertion_order": []string{"descending", "ascending", "shuffled"}[order]}
+	r := c.Rng()
+	perm := r.Perm(n)
+	for i := 0; i < n; i++ {
+		k := i
+		switch order {
+		case 0:
+			k = n - 1 - i
+		case 2:
+			k = perm[i]
+		}
+		if !m.Set(3*k, k) {
+			c.Fail(data, "Set(%d) of a new key reports false", 3*k)
+			return
+		}
+		if i&(1<<16-1) == 0 {
+			c.Step()
+		}
+	}
+	check := func(stride int, what string) bool {
+		cnt := (n + stride - 1) / stride
+		keys := m.Keys()
+		if m.Len() != cnt || len(keys) != cnt {
+			c.Fail(data, "%s: Len=%d, Keys has %d entries, want %d", what, m.Len(), len(keys), cnt)
+			return false
+		}
+		for i, k := range keys {
+			if k != 3*i*stride {
+				c.Fail(data, "%s: Keys[%d]=%d want %d", what, i, k, 3*i*stride)
+				return false
+			}
+		}
+		c.Step()
+		i := 0
+		for it := m.First(); it.IsValid(); it.Next() {
+			if it.Key() != 3*i*stride || it.Value() != i*stride {
+				c.Fail(data, "%s: First/Next entry %d is %d:%d", what, i, it.Key(), it.Value())
+				return false
+			}
+			i++
+		}
+		j := cnt - 1
+		for it := m.Last(); it.IsValid(); it.Prev() {
+			if it.Key() != 3*j*stride {
+				c.Fail(data, "%s: Last/Prev entry %d is %d", what, j, it.Key())
+				return false
+			}
+			j--
+		}
+		if i != cnt || j != -1 {
+			c.Fail(data, "%s: sweeps visited %d forward, %d backward of %d", what, i, cnt-1-j, cnt)
+			return false
+		}
+		c.Step()
+		for s := 0; s < 2000; s++ {
+			k := r.IntN(3*n+6) - 3
+			it := m.Seek(k)
+			want := (k + 3*stride - 1) / (3 * stride) * 3 * stride // first key >= k
+			if k < 0 {
+				want = 0
+			}
+			if want > 3*(cnt-1)*stride {
+				if it.IsValid() {
+					c.Fail(data, "%s: Seek(%d) beyond the largest key is valid at %d", what, k, it.Key())
+					return false
+				}
+			} else if !it.IsValid() || it.Key() != want {
+				c.Fail(data, "%s: Seek(%d) is at %d (valid=%v), want %d", what, k, it.Key(), it.IsValid(), want)
+				return false
+			}
+			if v, ok := m.GetOK(want); want <= 3*(cnt-1)*stride && (!ok || v != want/3) {
+				c.Fail(data, "%s: GetOK(%d)=(%d,%v)", what, want, v, ok)
+				return false
+			}
+		}
+		return true
+	}
+	if !check(1, "after the insertions") {
+		return
+	}
+	for k := 0; k < n; k++ {
+		if k%2 == 1 && !m.Delete(3*k) {
+			c.Fail(data, "Delete(%d) of a present key reports false", 3*k)
+			return
+		}
+	}
+	check(2, "after deleting every second key")
+	c.Add("very_large_maps", 1)
+	c.Max("max:map_keys", int64(n))
+}
+
 func runC04(c *fw.Ctx) {
+	if c.Block < 6 && c.Begin(1<<22+c.Block) {
+		n := []int{c.Pick(300000, 3600000), 262145, c.Pick(400000, 1500000)}[c.Block%3]
+		ok, pv, stack := fw.Try(func() { c04veryLarge(c, n, c.Block%3) })
+		if !ok {
+			c.FailKind("panic", map[string]any{"map": "omap.New[int,int]", "keys": n}, "panic: %v\n%s", pv, stack)
+		}
+	}
 	ncases := c.Pick(15, 300)
 	for i := 0; i < ncases; i++ {
 		if !c.Begin(i) {
